@@ -9,7 +9,7 @@ EXPLANATION = ('The pair enumeration is a finite discrete structure and is decid
                '{tool,base} x {0,2 environment objects} x exemption tables, and the extracted task table is compared with the specification table '
                'of the property (R10.1 pairs, R10.3 operands, R10.2/R10.5 exemptions and safety-table provenance).  The per-pair decision '
                '(R10.4), mode dispatch (R10.6) and schedule independence (R10.7 effect analysis of the rayon closures) are decided structurally. '
-               'The geometry of parry3d queries and of the bounding-box pre-filter is not decided.')
+               '(R10.9) the helpers a safety table is built with: SafetyDistances::distances files every value under its own pair (interpreted on three pairs), SafetyDistances::standard is touch-only towards environment and robot, without special pairs, in the given mode.  The geometry of parry3d queries and of the bounding-box pre-filter is not decided.')
 NOT_DECIDED = 'correctness of parry3d intersection/distance queries, the f64->f32 cast, geometric adequacy of the AABB pre-filter'
 ASSUMPTIONS = ['HashSet::contains / HashMap::get / Vec::push behave as documented (transfer functions of the interpreter)',
                'parry3d::query::intersection_test and distance are symmetric, exact geometric predicates']
